@@ -45,6 +45,17 @@ def handle (op : String) (args : List String) (impl : String) : Option (String Ã
           | none => "FAILS unparsable result"
         | _ => "holds"
       (m, h)
+  | "pgpsig3", [data] =>
+    (bytesOfHexStr data).map fun body =>
+      let m := match parseV3 body with
+        | .ok s =>
+          let ms := s.mpis.map fun m => s!"{m.bitLen}:{hexOfBytesStr m.bytes}"
+          " ".intercalate (["ok", "V3", toString s.sigType, toString s.created, hex16 s.issuer, toString s.pubAlgo, toString s.hashAlgo,
+            hexOfBytesStr s.hashTag, toString s.mpis.length] ++ [" ".intercalate ms])
+        | .unsupported => "unsupported"
+        | .structural => "structural"
+        | .eof => "eof"
+      (m, "holds")
   | _, _ => none
 
 end WhatIs.Oracle.PgpSig
